@@ -155,6 +155,34 @@ pub fn gen_parse(rng: &mut Rng, n: usize, _thorough: bool) -> Vec<Case> {
                         format!("expect={}", expect),
                     ));
                 }
+                // zero / all-ones patterns: each field zero among non-zero neighbours, and each ordered pair
+                // (field i zero, field j all ones) — a value must not depend on what another field holds
+                if !(ty == "VerDef" || ty == "VerNeed") || true {
+                    let guarded = ty == "VerDef" || ty == "VerNeed";
+                    let nf = lay.len();
+                    let mut pats: Vec<Vec<u64>> = vec![];
+                    for i in 0..nf {
+                        let mut v: Vec<u64> = lay.iter().map(|f| field_value(rng, f.1) | 1).collect();
+                        v[i] = 0;
+                        pats.push(v);
+                        for j in 0..nf {
+                            if i == j || (nf > 8 && (i + j) % 3 != 0) { continue; }
+                            let mut v: Vec<u64> = lay.iter().map(|f| field_value(rng, f.1) | 1).collect();
+                            v[i] = 0;
+                            v[j] = if lay[j].1 == 8 { u64::MAX } else { (1u64 << (8 * lay[j].1)) - 1 };
+                            pats.push(v);
+                        }
+                    }
+                    pats.push(vec![0; nf]);
+                    for mut vals in pats {
+                        if guarded { vals[0] = 1; }
+                        let buf = encode(ty, is64, le, &vals);
+                        out.push((
+                            format!("parse {} {} {} 0 {}", ty, le as u8, if is64 { 64 } else { 32 }, hex(&buf)),
+                            format!("expect=ok {} {}", expected_show(ty, is64, &vals).unwrap(), size),
+                        ));
+                    }
+                }
                 // truncations: every length 0..size-1 must fail (status only)
                 let vals: Vec<u64> = lay.iter().map(|f| field_value(rng, f.1)).collect();
                 let mut full = encode(ty, is64, le, &vals);
@@ -410,6 +438,59 @@ pub fn gen_acc(rng: &mut Rng, _n: usize, thorough: bool) -> Vec<Case> {
     }
     for shndx in [0u32, 1, 0xff00, 0xfff1, 0xffff] {
         out.push((format!("acc sym 0 0 {}", shndx), "-".into()));
+    }
+    out
+}
+
+/// the file header through the stand-alone parsers (`parse_ident` + `FileHeader::parse_tail`): every field of the
+/// header tail zero among non-zero neighbours, ordered pairs (field i zero, field j all ones), the all-zero and
+/// random tails, both classes, both byte orders, every spec; truncated tails
+pub fn gen_ehdr(rng: &mut Rng, n: usize, _thorough: bool) -> Vec<Case> {
+    let mut out = vec![];
+    for is64 in [false, true] {
+        for le in [false, true] {
+            let lay = layout("FileHeaderTail", is64);
+            let nf = lay.len();
+            let ident = |rng: &mut Rng| -> Vec<u8> {
+                vec![0x7f, b'E', b'L', b'F', if is64 { 2 } else { 1 }, if le { 1 } else { 2 }, 1, rng.below(20) as u8, rng.below(3) as u8, 0, 0, 0, 0, 0, 0, 0]
+            };
+            let mut pats: Vec<Vec<u64>> = vec![vec![0; nf]];
+            for i in 0..nf {
+                let mut v: Vec<u64> = lay.iter().map(|f| field_value(rng, f.1) | 1).collect();
+                v[i] = 0;
+                pats.push(v);
+                for j in 0..nf {
+                    if i == j { continue; }
+                    let mut v: Vec<u64> = lay.iter().map(|f| field_value(rng, f.1) | 1).collect();
+                    v[i] = 0;
+                    v[j] = if lay[j].1 == 8 { u64::MAX } else { (1u64 << (8 * lay[j].1)) - 1 };
+                    pats.push(v);
+                }
+            }
+            for _ in 0..n.max(8) { pats.push(lay.iter().map(|f| field_value(rng, f.1)).collect()); }
+            for vals in pats {
+                let mut buf = ident(rng);
+                buf.extend(encode("FileHeaderTail", is64, le, &vals));
+                let extra = rng.below(4) as usize;
+                buf.extend(rng.bytes(extra));
+                // expected: the ABI's reading of the bytes (ident bytes 7 and 8, then the fields in ABI order)
+                let g = |name: &str| -> u64 { lay.iter().position(|f| f.0 == name).map(|i| vals[i]).unwrap_or(0) };
+                let expect = format!("ok ehdr({},{},{},{},{},{},{},{},{},{},{},{},{},{},{},{},{})",
+                    if is64 { 64 } else { 32 }, le as u8, g("version"), buf[7], buf[8], g("e_type"), g("e_machine"), g("e_entry"),
+                    g("e_phoff"), g("e_shoff"), g("e_flags"), g("e_ehsize"), g("e_phentsize"), g("e_phnum"), g("e_shentsize"),
+                    g("e_shnum"), g("e_shstrndx"));
+                for spec in ["any", if le { "little" } else { "big" }] {
+                    out.push((format!("ehdr {} {}", spec, hex(&buf)), format!("expect={}", expect)));
+                }
+            }
+            // truncated tails
+            let vals: Vec<u64> = lay.iter().map(|f| field_value(rng, f.1)).collect();
+            let mut full = ident(rng);
+            full.extend(encode("FileHeaderTail", is64, le, &vals));
+            for cut in 0..full.len() {
+                out.push((format!("ehdr any {}", hex(&full[..cut])), "truncated".into()));
+            }
+        }
     }
     out
 }
